@@ -76,8 +76,10 @@ func (c *Context) SpawnChild(p Producer, name string, opts ...OptFunc) *PID {
 	}
 	proc := newProcess(c.engine, options)
 	proc.context.parentCtx = c
-	pid := c.engine.SpawnProc(proc)
-	c.children.Set(pid.ID, pid)
+	// The child is entered before it is spawned: it may stop (and remove
+	// itself from this map) before SpawnProc returns.
+	c.children.Set(proc.PID().ID, proc.PID())
+	c.engine.SpawnProc(proc)
 
 	return proc.PID()
 }
